@@ -348,10 +348,45 @@ impl World {
                 let f = t!(c, leaf);
                 Box::new(move || render(f()))
             }
+            (View::Root(c), "inner", "display") => Box::new(move || t_display!(c, sub.inner).to_string()),
+            (View::Sub(c), "inner", "display") => Box::new(move || t_display!(c, inner).to_string()),
+            // formatter accessors take no key: their text is the long date of a fixed day, which tells the locale apart
+            (View::Root(c), "fmt", "format") => fmt_view_accessor!(c),
+            (View::Sub(c), "fmt", "format") => fmt_view_accessor!(c),
+            (View::Deep(c), "fmt", "format") => fmt_view_accessor!(c),
+            (View::Root(c), "fmt", "format_string") => Box::new(move || fmt_tag(&leptos_i18n::formatting::t_format_string!(c, &fmt::date(), formatter: date(date_length: long)).to_string())),
+            (View::Sub(c), "fmt", "format_string") => Box::new(move || fmt_tag(&leptos_i18n::formatting::t_format_string!(c, &fmt::date(), formatter: date(date_length: long)).to_string())),
+            (View::Deep(c), "fmt", "format_string") => Box::new(move || fmt_tag(&leptos_i18n::formatting::t_format_string!(c, &fmt::date(), formatter: date(date_length: long)).to_string())),
             _ => panic!("driver: accessor {} not available on this view", key),
         };
         self.accs.push(a);
     }
+}
+
+macro_rules! fmt_view_accessor {
+    ($c:expr) => {{
+        let f = leptos_i18n::formatting::t_format!($c, fmt::date, formatter: date(date_length: long));
+        Box::new(move || fmt_tag(&render(f())))
+    }};
+}
+use fmt_view_accessor;
+
+/// "fmt-<locale>" for the locale whose direct ICU4X long date equals `out` (the scenario's locales first)
+fn fmt_tag(out: &str) -> String {
+    use leptos_i18n::Locale as _;
+    let args = vec!["long".to_string()];
+    let mut names: Vec<&'static str> = vec!["en", "fr", "de"];
+    for l in Locale::get_all() {
+        if !names.contains(&l.as_str()) {
+            names.push(l.as_str());
+        }
+    }
+    for n in names {
+        if fmt::icu_direct("date", &args, n) == out {
+            return format!("fmt-{}", n);
+        }
+    }
+    format!("fmt-?{}", out)
 }
 
 fn flush() {
